@@ -77,8 +77,12 @@ def r_div(v):
     return 2 // split_value(v)[0]
 
 
+class OwnError(Exception):
+    """A user's own exception type (not a subclass of the built-in error families)."""
+
+
 def r_always(v):
-    raise KeyError("always")
+    raise OwnError("always")
 
 
 CALLABLES = {"t_ctx": t_ctx, "t_num": t_num, "r_len": r_len, "r_div": r_div, "r_always": r_always}
